@@ -33,11 +33,46 @@ use crate::database::timing::{
     RECORD_BUILD_NS, STORAGE_LOCK_NS, TXN_LOOKUP_NS, WAL_FLUSH_NS,
 };
 use crate::database::Database;
-use crate::schema::table::Constraint;
-use crate::storage::{TableFileHeader, WalStoragePerTable, DEFAULT_SCHEMA};
+use crate::schema::table::{Constraint, IndexType, TableDef};
+use crate::storage::{
+    FileManager, IndexFileHeader, MmapStorage, TableFileHeader, WalStoragePerTable, DEFAULT_SCHEMA,
+};
 use crate::types::{create_record_schema, OwnedValue};
 use eyre::{bail, Result, WrapErr};
 use std::sync::atomic::Ordering;
+
+/// A B-tree index of the table a bulk path loads rows into.
+struct LoadIndex {
+    storage: std::sync::Arc<parking_lot::RwLock<MmapStorage>>,
+    col_indices: Vec<usize>,
+    is_unique: bool,
+    root_page: u32,
+}
+
+impl LoadIndex {
+    /// Builds the key of `row` as INSERT lays it out (UPDATE and DELETE look for exactly
+    /// this): the encoded column values, followed by the row key in a non-unique index.
+    /// Returns false when the index holds no entry for the row: a unique index and a NULL
+    /// key column.
+    fn build_key(&self, row: &[OwnedValue], row_key: &[u8; 8], key_buffer: &mut Vec<u8>) -> bool {
+        let null = OwnedValue::Null;
+        let key_columns = self
+            .col_indices
+            .iter()
+            .map(|&idx| row.get(idx).unwrap_or(&null));
+        if self.is_unique && key_columns.clone().any(|value| value.is_null()) {
+            return false;
+        }
+        key_buffer.clear();
+        for value in key_columns {
+            Database::encode_value_as_key(value, key_buffer);
+        }
+        if !self.is_unique {
+            key_buffer.extend_from_slice(row_key);
+        }
+        true
+    }
+}
 
 impl Database {
     pub fn insert_batch(&self, table: &str, rows: &[Vec<OwnedValue>]) -> Result<usize> {
@@ -75,6 +110,7 @@ impl Database {
         let table_def = catalog.resolve_table(table_name)?;
         let table_id = table_def.id();
         let columns = table_def.columns().to_vec();
+        let index_specs = Self::load_index_specs(table_def);
 
         let schema = create_record_schema(&columns);
 
@@ -82,6 +118,10 @@ impl Database {
 
         let mut file_manager_guard = self.shared.file_manager.write();
         let file_manager = file_manager_guard.as_mut().unwrap();
+
+        let mut indexes =
+            Self::open_load_indexes(file_manager, schema_name, table_name, index_specs)?;
+        let mut key_buffer = Vec::with_capacity(64);
 
         let (mut root_page, mut rightmost_hint): (u32, Option<u32>) = {
             let storage_arc = file_manager.table_data_mut(schema_name, table_name)?;
@@ -169,6 +209,7 @@ impl Database {
                     self.add_insert_write_entry(table_id as u32, &row_key);
                 }
                 btree.insert_append(&row_key, &mvcc_buffer)?;
+                Self::insert_load_index_entries(&mut indexes, row_values, row_id, &mut key_buffer)?;
             }
 
             root_page = btree.root_page();
@@ -195,6 +236,7 @@ impl Database {
                     self.add_insert_write_entry(table_id as u32, &row_key);
                 }
                 btree.insert_append(&row_key, &mvcc_buffer)?;
+                Self::insert_load_index_entries(&mut indexes, row_values, row_id, &mut key_buffer)?;
             }
 
             root_page = btree.root_page();
@@ -529,7 +571,7 @@ impl Database {
             (DEFAULT_SCHEMA, table)
         };
 
-        let (record_schema, auto_increment_col) = {
+        let (record_schema, auto_increment_col, index_specs) = {
             let catalog_guard = self.shared.catalog.read();
             let catalog = catalog_guard.as_ref().unwrap();
             let table_def = catalog.resolve_table_in_schema(Some(schema_name), table_name)?;
@@ -537,12 +579,19 @@ impl Database {
                 .columns()
                 .iter()
                 .position(|c| c.has_constraint(&Constraint::AutoIncrement));
-            (create_record_schema(table_def.columns()), auto_increment_col)
+            (
+                create_record_schema(table_def.columns()),
+                auto_increment_col,
+                Self::load_index_specs(table_def),
+            )
         };
 
         let mut file_manager_guard = self.shared.file_manager.write();
         let file_manager = file_manager_guard.as_mut().unwrap();
         let storage_arc = file_manager.table_data_mut(schema_name, table_name)?;
+        let mut indexes =
+            Self::open_load_indexes(file_manager, schema_name, table_name, index_specs)?;
+        let mut key_buffer = Vec::with_capacity(64);
 
         let (root_page, mut auto_increment) = {
             let storage = storage_arc.write();
@@ -572,7 +621,10 @@ impl Database {
                 Some(col) => Self::apply_auto_increment(&mut row, col, &mut auto_increment),
                 None => Ok(()),
             }
-            .and_then(|()| loader.insert_unchecked(&row));
+            .and_then(|()| loader.insert_unchecked(&row))
+            .and_then(|row_id| {
+                Self::insert_load_index_entries(&mut indexes, &row, row_id, &mut key_buffer)
+            });
             if let Err(e) = stored {
                 load_result = Err(e);
                 break;
@@ -597,6 +649,88 @@ impl Database {
 
         load_result?;
         Ok(stats.row_count)
+    }
+
+    /// The B-tree indexes INSERT maintains for a table as (name, key columns, unique): the
+    /// `<col>_pkey` / `<col>_key` index of every PRIMARY KEY / UNIQUE column, then the
+    /// indexes of the catalog.
+    fn load_index_specs(table_def: &TableDef) -> Vec<(String, Vec<usize>, bool)> {
+        let columns = table_def.columns();
+        let mut specs: Vec<(String, Vec<usize>, bool)> = Vec::new();
+        for (idx, col) in columns.iter().enumerate() {
+            if col.has_constraint(&Constraint::PrimaryKey) {
+                specs.push((format!("{}_pkey", col.name()), vec![idx], true));
+            } else if col.has_constraint(&Constraint::Unique) {
+                specs.push((format!("{}_key", col.name()), vec![idx], true));
+            }
+        }
+        for index in table_def.indexes() {
+            if index.index_type() != IndexType::BTree
+                || specs.iter().any(|(name, _, _)| name == index.name())
+            {
+                continue;
+            }
+            let col_indices: Vec<usize> = index
+                .columns()
+                .filter_map(|name| {
+                    columns
+                        .iter()
+                        .position(|c| c.name().eq_ignore_ascii_case(name))
+                })
+                .collect();
+            if !col_indices.is_empty() {
+                specs.push((index.name().to_string(), col_indices, index.is_unique()));
+            }
+        }
+        specs
+    }
+
+    fn open_load_indexes(
+        file_manager: &mut FileManager,
+        schema_name: &str,
+        table_name: &str,
+        specs: Vec<(String, Vec<usize>, bool)>,
+    ) -> Result<Vec<LoadIndex>> {
+        let mut indexes = Vec::with_capacity(specs.len());
+        for (name, col_indices, is_unique) in specs {
+            if !file_manager.index_exists(schema_name, table_name, &name) {
+                continue;
+            }
+            let storage = file_manager.index_data_mut(schema_name, table_name, &name)?;
+            let root_page = IndexFileHeader::from_bytes(storage.read().page(0)?)?.root_page();
+            indexes.push(LoadIndex {
+                storage,
+                col_indices,
+                is_unique,
+                root_page,
+            });
+        }
+        Ok(indexes)
+    }
+
+    /// Adds the index entries of a stored row; their value is the row key.
+    fn insert_load_index_entries(
+        indexes: &mut [LoadIndex],
+        row: &[OwnedValue],
+        row_id: u64,
+        key_buffer: &mut Vec<u8>,
+    ) -> Result<()> {
+        let row_key = Self::generate_row_key(row_id);
+        for index in indexes {
+            if !index.build_key(row, &row_key, key_buffer) {
+                continue;
+            }
+
+            let mut storage = index.storage.write();
+            let mut btree = BTree::new(&mut *storage, index.root_page)?;
+            btree.insert(key_buffer, &row_key)?;
+            let new_root = btree.root_page();
+            if new_root != index.root_page {
+                IndexFileHeader::from_bytes_mut(storage.page_mut(0)?)?.set_root_page(new_root);
+                index.root_page = new_root;
+            }
+        }
+        Ok(())
     }
 
     /// AUTO_INCREMENT rules of INSERT for one row of a bulk path: a NULL value is generated
